@@ -279,7 +279,7 @@ func tsigBuffer(msgbuf []byte, rr *TSIG, requestMAC string, timersOnly bool) ([]
 		m := new(macWireFmt)
 		m.MACSize = uint16(len(requestMAC) / 2)
 		m.MAC = requestMAC
-		buf = make([]byte, len(requestMAC)) // long enough
+		buf = make([]byte, 2+len(requestMAC)/2) // MAC size (2 octets) and the MAC itself
 		n, err := packMacWire(m, buf)
 		if err != nil {
 			return nil, err
